@@ -122,6 +122,8 @@ type Cfg struct {
 	Jitter float64
 	// SpareCap gives some sequences unused capacity after their last ordinate.
 	SpareCap bool
+	// AlwaysLong makes every linear component use at least 2/3 of MaxPts vertices.
+	AlwaysLong bool
 }
 
 func (c *Cfg) alloc(n int) []float64 {
@@ -219,6 +221,13 @@ func (g *Gen) npts(min int) int {
 		max = min
 	}
 	// mostly small, sometimes up to max
+	if g.Cfg.AlwaysLong {
+		lo := max * 2 / 3
+		if lo < min {
+			lo = min
+		}
+		return lo + g.S.Intn(max-lo+1, "np")
+	}
 	if g.S.Intn(4, "np/big") == 3 {
 		return min + g.S.Intn(max-min+1, "np")
 	}
